@@ -1,7 +1,7 @@
 import Driver.Proto
 import Driver.OpsBind
 import XsdataModel.BindShared.Parse
-import XsdataModel.BindShared.Union
+import XsdataModel.Bind.Union
 open Lean Proto Py Xs.Bind
 
 namespace OpsBindShared
@@ -32,7 +32,7 @@ def run (op : String) (a : Json) : Option (Except String Json) :=
       let cfg := dCfg (field a "config")
       let flags : ParserConfig → Json := fun c =>
         Json.arr #[jBool c.failOnUnknownProperties, jBool c.failOnUnknownAttributes, jBool c.failOnConverterWarnings]
-      pure <| ok (jObj [("replay", Json.arr #[flags (unionReplayConfig cfg)]), ("after", flags cfg)])
+      pure <| ok (jObj [("replay", Json.arr #[flags (strictCfg cfg)]), ("after", flags cfg)])
   | _ => none
 
 end OpsBindShared
